@@ -10,6 +10,7 @@ handlers inside the code under test cannot swallow them.
 """
 import time
 import z3
+from zx import ranges as _ranges
 
 
 class ZXError(BaseException):
@@ -130,6 +131,14 @@ class Explorer:
             return True
         if z3.is_false(c):
             return False
+        # context-free interval pre-check (zx/ranges.py): a condition that holds / fails for every assignment is no decision at all
+        try:
+            iv = _ranges.truth(c)
+        except Exception:   # noqa  (the pre-check is an optimisation only)
+            iv = None
+        if iv is not None:
+            self.range_decided = getattr(self, 'range_decided', 0) + 1
+            return iv
         self.decisions += 1
         if self._pos < len(self._prefix):
             choice = self._prefix[self._pos]
